@@ -2,6 +2,7 @@
   C11 — Metadata documents: faithful round trip, isolation and lifetime.
 -/
 import HSModel.Proofs.StepLemmas
+import HSModel.Proofs.RefineAll
 namespace HS.C11
 open Abs
 variable (cfg : Config) (o : Oracle)
@@ -141,5 +142,22 @@ theorem key_injective (U : List Str) (hnc : NoColl o.hId U) (p f q g : Str)
 
 example : fmtOf { depth := 3, width := 2, alg := [], ns := "ns".toList } (.str "f1".toList)
     = some "f1".toList := by decide
+
+
+/-- **concrete**: store a document, retrieve it under the same (pid, format):
+    the concrete calls return exactly the stored document -/
+theorem concrete_store_then_retrieve (st : Store) (log : List Eff) (a : Abs) (hs : Sim o st a) (ho : GoodOracle o)
+    (p : Str) (t : Tok) (fmt : SArg) (f : Str) (hp : checkStringOk p = true) (hf : fmtOf cfg fmt = some f) :
+    let w1 := ((storeMetadata cfg o (.str p) (.ok t) fmt).run (calm st log)).2
+    ((retrieveMetadata cfg o (.str p) fmt).run w1).1 = .ok (.content t) := by
+  intro w1
+  obtain ⟨w1', hrun1, hlk1, hnf1, hs1⟩ := refines_step cfg o (.storeMetadata (.str p) (.ok t) fmt) st log a hs ho trivial
+  have hw1 : w1 = w1' := by
+    show (Prog.run (storeMetadata cfg o (.str p) (.ok t) fmt) (calm st log)).2 = w1'
+    have : (storeMetadata cfg o (.str p) (.ok t) fmt).run (calm st log) = _ := hrun1
+    rw [this]
+  obtain ⟨w2, hrun2, _, _, _⟩ := refines_step_world cfg o (.retrieveMetadata (.str p) fmt) w1' _ hlk1 hnf1 hs1 ho trivial
+  have hrun2' : (retrieveMetadata cfg o (.str p) fmt).run w1' = _ := hrun2
+  rw [hw1, hrun2', store_then_retrieve cfg o a p t fmt f hp hf]
 
 end HS.C11
